@@ -10,6 +10,30 @@ CHECKS = {
    note="bounded nesting/alphabet; move-set detection assumes resampled continuous leaves change value; compat layer trusted",
    technique="TLA+ spec (Selection.tla) checked by TLC; exhaustive replay of the TLC-exported Den table into genjax selections/filter/regenerate/mala/hmc; TLC trace validation of recorded verdicts"),
 }
+
+GFI_NOTE = "bounded corpus (GFIPrograms.tla: 3-valued dyadic tri-distributions, <= 5 leaves, nesting depth <= 3); scripted outcomes are carried by model arguments; compat layer trusted; continuous-site programs are not in this corpus"
+GFI_TECH = "TLA+ spec (GFIOps.tla/GFI.tla: handler-level Impl vs denotational Contract) checked by TLC; every TLC behaviour (dumped states carry the call history) replayed into the real GFI with scripted randomness; real-randomness runs recorded and validated by TLC against GFITrace.tla"
+CHECKS.update({
+ "C01": dict(category="model_checking", design_ref="DESIGN.md §4 C01", note=GFI_NOTE, technique=GFI_TECH,
+   text="TLC: for every program/argument/outcome of the corpus the simulate handler machine yields score = denotational density, retval = program value, behaviour probability 2^-score and total probability 1 (SimTotalProb); all behaviours replayed through seed(gf.simulate) eagerly and under jit, assess/log_density evaluated on the returned choices; thousands of real-randomness runs (eager/jit/vmap-over-keys) validated by TLC, outcome frequencies chi-square screened against exp(-score)."),
+ "C02": dict(category="model_checking", design_ref="DESIGN.md §4 C02", note=GFI_NOTE, technique=GFI_TECH,
+   text="TLC: for every lane-closed subset of leaf addresses x every value assignment as constraint, generate's weight = sum of constrained log-probs = mass - score, constrained values held, and sum over outcomes of 2^(-mass+w) equals the marginal probability of the constraint (GenUnbiased, exact integer identity); replayed through seed(gf.generate) (eager/jit) incl. unconstrained whole sub-calls; real-randomness generate runs validated by TLC."),
+ "C03": dict(category="model_checking", design_ref="DESIGN.md §4 C03", note=GFI_NOTE, technique=GFI_TECH,
+   text="TLC: from every simulated trace, every new argument (incl. Cond flips, Scan/Vmap input changes) and constraint: new choices = old overridden, weight = density ratio, discard = old visible values, update-back restores (UpdateOK); replayed on the real update with the real discard fed back; real-randomness updates validated by TLC."),
+ "C04": dict(category="model_checking", design_ref="DESIGN.md §4 C04", note=GFI_NOTE, technique=GFI_TECH,
+   text="TLC: from every simulated trace, every selection of SelsFor (all/none/str/tup/complement/union over the program's address paths), every new argument and every outcome of the resampled sites: unselected leaves unchanged, weight = change of the unselected leaves' log-probs, discard = old selected values, definedness on Scan/Vmap/Cond programs (RegenerateOK); replayed on the real regenerate; real-randomness runs validated by TLC."),
+ "C05": dict(category="model_checking", design_ref="DESIGN.md §4 C05", note=GFI_NOTE, technique=GFI_TECH,
+   text="TLC exhaustively checks all histories of length 3 (update/regenerate/mh accept+reject/jit round trip) over the smallest programs with Coherent, ObservedKept and Telescoping in every state; TLC -simulate histories of length 3-6 (incl. lane resampling of vectorised traces) are stepped through the real trace objects with the observable state compared after every step; random real-randomness histories validated by TLC."),
+ "C06": dict(category="model_checking", design_ref="DESIGN.md §4 C06",
+   note="program grammar of Seed.tla (depth <= 2: sites, sample_shape/modular_vmap lanes, cond, scan, nested calls, uninterpreted equations); threefry trusted",
+   technique="TLA+ spec (Seed.tla: eval_jaxpr_seed key discipline over key terms) checked by TLC over all interleavings; replay of interleavings on real seed(f) with bit-revealing sample sites across eager/jit/vmap/jit-of-vmap/kwargs",
+   text="TLC: for every program of the grammar and every interleaving of seeded calls (2 roots, all branch decisions) with foreign unseeded sampling, site keys are a function of (root, path) only (Pure), never the hidden counter (NoHidden), rooted in the call's key (RootsApart); replayed: same (program,key,decisions) must give bit-identical draws eagerly, under jit, vmap over keys, jit-of-vmap, keyword arguments and batched predicates, whatever ran in between; distinct keys give disjoint draws."),
+ "C07": dict(category="model_checking", design_ref="DESIGN.md §4 C07",
+   note="as C06; statistical independence of distinct threefry streams is assumed, not checked",
+   technique="TLA+ spec (Seed.tla) checked by TLC (Distinct: injectivity of site -> (key term, lane)); replay with bit-revealing sites: pairwise distinct 64-bit draws and equality with the bits of the model's key terms",
+   text="TLC: no two sites of one seeded run share (key term, lane) across statements, scan iterations, sample_shape / modular_vmap lanes, cond branches taken, nested calls, for every program of the grammar; replayed on real code where each site returns the 64 random bits it consumes: pairwise distinct within a run, and equal to bits(key term) predicted by the spec (informational)."),
+})
+
 PENDING = {}
 def main():
     props = [json.loads(l) for l in open(f"{V}/properties.jsonl")]
